@@ -35,9 +35,13 @@ class Arr:
         return len(self.shape)
 
     def __getitem__(self, idx):
-        if isinstance(idx, tuple):
-            return z3.Select(self.term, *[_z(i) for i in idx])
-        return z3.Select(self.term, _z(idx))
+        if isinstance(self.term, tuple):          # list of tuples kept as parallel columns
+            return tuple(z3.Select(t, _z(idx)) for t in self.term)
+        ix = [_z(i) for i in idx] if isinstance(idx, tuple) else [_z(idx)]
+        t = self.term
+        if z3.is_quantifier(t) and t.is_lambda() and t.num_vars() == len(ix):
+            return z3.substitute_vars(t.body(), *reversed(ix))      # beta-reduce point-wise arrays
+        return z3.Select(t, *ix)
 
     def with_term(self, term, init='same'):
         return Arr(term, self.shape, self.kind, self.init if init == 'same' else init, self.meta)
@@ -184,6 +188,13 @@ class SymL:
     def eq(self, a, b):
         return _z(a) == _z(b)
 
+    def int_below(self, c, bound):
+        """c < bound where bound may be +inf (an integer is always below +inf)"""
+        b = _z(bound)
+        if z3.eq(b, INF()):
+            return z3.BoolVal(True)
+        return _z(c) < b
+
     def min(self, a, b):
         a, b = _z(a), _z(b)
         return z3.If(a <= b, a, b)
@@ -209,9 +220,22 @@ class SymL:
     def hint(self, *terms):
         self.hints.extend(_z(t) for t in terms)
 
+    def sum(self, a):
+        """np.sum of an array as a ghost function of its term (same symbol the executor uses)"""
+        k = a.kind if a.kind != 'bool' else 'int'
+        f = z3.Function('SUM%d_%s' % (a.ndim, k), a.term.sort(), *([z3.IntSort()] * a.ndim), sort_of(k))
+        return f(a.term, *a.shape)
+
+    def slice_is(self, piece, base, lo, n):
+        """piece (element of a list of slices of `base`) is base[lo:lo+n]"""
+        plo, pn = piece
+        return z3.And(pn == _z(n), z3.Or(pn == 0, plo == _z(lo)))
+
     def same_array(self, a, b):
         """extensional equality of two array snapshots (shape and contents)"""
         cs = [x == y for x, y in zip(a.shape, b.shape)]
+        if isinstance(a.term, tuple):
+            return self.And(*cs, *[self.forall(0, a.shape[0], lambda i, x=x, y=y: z3.Select(x, i) == z3.Select(y, i)) for x, y in zip(a.term, b.term)])
         if z3.eq(a.term, b.term):
             return self.And(*cs)
         if a.ndim == 1:
@@ -279,6 +303,8 @@ class ConL:
         a, b = float(a), float(b)
         if a == b:
             return True
+        if a in (float('inf'), float('-inf')) or b in (float('inf'), float('-inf')) or a != a or b != b:
+            return False
         return abs(a - b) <= self.ATOL + self.RTOL * max(abs(a), abs(b))
 
     def rle(self, a, b):
@@ -289,6 +315,9 @@ class ConL:
 
     def eq(self, a, b):
         return a == b
+
+    def int_below(self, c, bound):
+        return c < bound
 
     def min(self, a, b):
         return a if a <= b else b
@@ -311,6 +340,15 @@ class ConL:
 
     def hint(self, *terms):
         pass
+
+    def sum(self, a):
+        import numpy as np
+        return np.sum(a)
+
+    def slice_is(self, piece, base, lo, n):
+        import numpy as np
+        lo, n = int(lo), int(n)
+        return len(piece) == n and bool(np.array_equal(np.asarray(piece), np.asarray(base[lo:lo + n])))
 
     def same_array(self, a, b):
         import numpy as np
